@@ -8,6 +8,27 @@ from .src import Source
 
 # (name, program text defining RESULT or raising, expected repr of RESULT / "raise <Exc>")
 PROGRAMS = [
+    ("class-creation-hooks-init_subclass-then-metaclass-init", '''
+log = []
+class M(type):
+    def __init__(cls, name, bases, ns):
+        super().__init__(name, bases, ns)
+        log.append(("meta-init", name, len(bases), "x" in ns))
+        cls.registry = {}
+    def __call__(cls, *a):
+        o = super().__call__(*a)
+        cls.registry[a] = o
+        return o
+class Base(metaclass=M):
+    def __init_subclass__(cls):
+        log.append(("init_subclass", cls.__name__))
+        cls.boot = cls("boot")
+    def __init__(self, tag):
+        self.tag = tag
+class Sub(Base):
+    x = 1
+RESULT = (log, Sub.boot.tag, sorted(Sub.registry), sorted(Base.registry))
+''', "([('meta-init', 'Base', 0, False), ('init_subclass', 'Sub'), ('meta-init', 'Sub', 1, True)], 'boot', [], [('boot',)])"),
     ("generator-close-runs-finally-also-through-yield-from", '''
 log = []
 def inner():
